@@ -24,6 +24,12 @@ import DiskfsModel.Proofs.Ext4Xattr
 import DiskfsModel.Proofs.Ext4Spec
 import DiskfsModel.Proofs.Ext4ReadSkipNeg
 import DiskfsModel.Model.Ext4.ImageSpec
+import DiskfsModel.Proofs.Ext4InodeDecode
+import DiskfsModel.Proofs.Ext4DirNow
+import DiskfsModel.Proofs.Ext4XattrSpec
+import DiskfsModel.Proofs.Ext4FeatureGate
+import DiskfsModel.Proofs.Ext4HtreeSpec
+import DiskfsModel.Proofs.Ext4CsumMirror
 namespace Diskfs.Ext4.Reader.C20
 
 /-- Flattening (extentBlockFinder.blocks: concatenate the leaves, children in order, interior
@@ -348,8 +354,9 @@ theorem read_sparse_guard_unreached (skip : Bool) (dev : Dev) (devSize bs : Nat)
 /-- on an out-of-order list the two differ: without the guard a negative length reaches `make` (panic), with
     it the extent that lies before the offset is passed over and the rest of the request reads as a hole -/
 theorem cex_read_out_of_order :
-    sparseReadC false (fun _ => 7) 1000 4 [⟨2, 20, 2⟩, ⟨0, 10, 1⟩] 16 8 8 = .panic 16 ∧
-    sparseReadC true (fun _ => 7) 1000 4 [⟨2, 20, 2⟩, ⟨0, 10, 1⟩] 16 8 8 = .ok ⟨[7, 7, 7, 7, 7, 7, 7, 7], 16, true, [(80, 8)]⟩ := by
+    sparseReadC false (fun _ => 7) 1000 4 [⟨2, 20, 2⟩, ⟨0, 10, 1⟩] 20 0 20 = .panic 16 ∧
+    sparseReadC true (fun _ => 7) 1000 4 [⟨2, 20, 2⟩, ⟨0, 10, 1⟩] 20 0 20 =
+      .ok ⟨[0, 0, 0, 0, 0, 0, 0, 0, 7, 7, 7, 7, 7, 7, 7, 7, 0, 0, 0, 0], 20, true, [(80, 8)]⟩ := by
   decide
 
 /-! ### unwritten (preallocated) extents -/
@@ -688,5 +695,310 @@ set_option maxRecDepth 8192 in
 example : treeSearch exRd 1 exRootBlk 5 = .ok (some 300) ∧ treeSearch exRd 1 exRootBlk 3 = .ok none := by decide
 example : blockRef [⟨0, 100, 2⟩, ⟨2, 200, 32770⟩] 3 = .unwritten ∧ blockRef [⟨0, 100, 2⟩, ⟨2, 200, 32770⟩] 4 = .hole := by decide
 
+
+/-! ### inode decoding: mirror of inodeFromBytes = SPEC decoder, field by field -/
+open Diskfs.Ext4.InodeDec Diskfs.Ext4.InodeCodec
+
+/-- the SPEC reader's readInode (over the image, at the inode's offset) IS the byte-level SPEC decoder applied
+    to the record: every field, the i_extra_isize rule and the crc32c checksum with its cleared fields -/
+theorem spec_inode_of_bytes (f : Fs) (n o : Nat) (ho : inodeOff f.geo f.tables n = some o)
+    (hr : f.img.inRange o f.geo.inodeSize = true) (hisz : f.geo.inodeSize = 128 ∨ 132 ≤ f.geo.inodeSize) :
+    readInode f n = .ok (specInode f.geo f.seed n o (f.img.bytes o f.geo.inodeSize)) :=
+  readInode_eq f n o ho hr hisz
+
+/-- mirror = spec, the classic fields: for EVERY record of the inode size (128, or at least 132 bytes), the
+    mirror of inodeFromBytes and the SPEC decoder return the same mode, owner and group (both halves), size
+    (both halves), link count, flags, i_blocks in 512-byte units (huge_file scaling), generation, xattr
+    block (both halves), i_block and — on large inodes — i_extra_isize -/
+theorem mirror_inode_fields_eq_spec (guarded : Bool) (g : Geo) (seed : UInt32) (n o : Nat) (raw : Bytes)
+    (hl : raw.length = g.inodeSize) (hisz : g.inodeSize = 128 ∨ 132 ≤ g.inodeSize) :
+    let gi := goDecode guarded g.hugeFile g.inodeSize raw
+    let si := specInode g seed n o raw
+    si.mode = gi.mode ∧ si.uid = gi.uid ∧ si.gid = gi.gid ∧ si.size = gi.size ∧ si.links = gi.links ∧
+    si.flags = gi.flags ∧ si.blocks512 = gi.blocks512 g.blockSize ∧ si.gen = gi.gen ∧ si.fileAcl = gi.fileAcl ∧
+    si.iblock = gi.iblock ∧ (g.inodeSize > 128 → si.extra = gi.extra) :=
+  goDecode_base_eq_spec guarded g seed n o raw hl hisz
+
+/-- mirror = spec, the four 34-bit timestamps with nanoseconds: equal on every record for the REPAIRED reader
+    (extra words honoured only where i_extra_isize reaches them); for the reader AS FOUND on 128-byte inodes
+    and on every inode whose i_extra_isize covers the timestamp words (≥ 24, what mke2fs and current kernels
+    write: 32) -/
+theorem mirror_inode_times_eq_spec (guarded : Bool) (g : Geo) (seed : UInt32) (n o : Nat) (raw : Bytes)
+    (hl : raw.length = g.inodeSize) (hisz : g.inodeSize = 128 ∨ 132 ≤ g.inodeSize)
+    (hfit : guarded = true ∨ g.inodeSize = 128 ∨ (0x98 ≤ 128 + le16 raw 0x80 ∧ 0x98 ≤ g.inodeSize)) :
+    let gi := goDecode guarded g.hugeFile g.inodeSize raw
+    let si := specInode g seed n o raw
+    si.atime = gi.atime ∧ si.ctime = gi.ctime ∧ si.mtime = gi.mtime ∧ si.crtime = gi.crtime :=
+  goDecode_times_eq_spec guarded g seed n o raw hl hisz hfit
+
+/-- finding ext4-inode-extra-isize-ignored: as found, a 256-byte inode with i_extra_isize = 4 (legal: e2fsck
+    accepts it, debugfs makes it) whose bytes behind the extra area are in use (here one byte of an in-inode
+    attribute at 0x88) gets a modification time 2^32 seconds off, where the format — and the repaired reader —
+    say the extra word does not exist -/
+def exSmallExtra : Bytes := zeros 0x80 ++ [4, 0] ++ zeros 6 ++ [1, 0, 0, 0] ++ zeros (256 - 0x8c)
+set_option maxRecDepth 100000 in
+theorem cex_extra_isize_ignored :
+    (goDecode false false 256 exSmallExtra).mtime = ⟨4294967296, 0⟩ ∧
+    (specInode ⟨1024, 256, 2048, 8192, 1, 4096, 16384, 64, 0, 0xc2, 0x400, 0⟩ 0 12 0 exSmallExtra).mtime = ⟨0, 0⟩ ∧
+    (goDecode true false 256 exSmallExtra).mtime = ⟨0, 0⟩ := by decide
+
+/-- symbolic links: the Go reader takes the target from i_block when size < 60, the kernel (and the SPEC
+    reader) when the inode owns no data blocks beyond its xattr block.  On a symlink inode the two rules
+    differ EXACTLY when a short link owns data blocks or a long link owns none -/
+theorem symlink_rules_differ_exactly (mode size blocks512 ea : Nat) (hl : mode / 4096 = 10) :
+    goFast mode size ≠ specFast mode blocks512 ea ↔
+      (size < 60 ∧ ea < blocks512) ∨ (60 ≤ size ∧ blocks512 ≤ ea) :=
+  symlink_rules_differ_iff mode size blocks512 ea hl
+
+/-- … so they agree on every inode whose i_blocks is the xattr block plus the data blocks and whose writer
+    keeps targets below 60 bytes in the inode (ext2fs_symlink and the kernel without encryption / inline
+    data): in particular on a fast symlink WITH an external xattr block (i_blocks ≠ 0, the regime of 128-byte
+    inodes), where a reader testing `i_blocks == 0` would go wrong -/
+theorem symlink_rules_agree_on_wellformed (mode size blocks512 ea data : Nat) (hacc : blocks512 = ea + data)
+    (hw : data = 0 ↔ size < 60) : goFast mode size = specFast mode blocks512 ea :=
+  InodeDec.symlink_rules_agree mode size blocks512 ea data hacc hw
+
+/-- checksum VERIFICATION decision, equal as functions of the bytes: for every record, seed and inode number
+    the mirror of inodeFromBytes' check (crc32c over seed, number, generation and the record with the checksum
+    fields cleared; all 32 bits when the record has 0x84 bytes, else the low 16) decides as the format does,
+    on 128-byte inodes and wherever i_extra_isize ≥ 4 (e2fsck's minimum) -/
+theorem mirror_inode_csum_eq_spec (seed : UInt32) (n isz : Nat) (raw : Bytes) (hl : raw.length = isz)
+    (h : isz = 128 ∨ (132 ≤ isz ∧ 4 ≤ le16 raw 0x80)) :
+    goCsumOk seed n raw = specCsumOk seed n isz raw :=
+  goCsumOk_eq_spec seed n isz raw hl h
+
+/-- the image-level checksum of the SPEC reader (crc over a byte range of the image with positions skipped)
+    is crc32c of the record with those fields cleared -/
+theorem spec_inode_csum_range (i : Img) (o isz : Nat) (hi : Bool) (c : UInt32) :
+    i.crcRange (fun p => p == o + 0x7c || p == o + 0x7d || hi && (p == o + 0x82 || p == o + 0x83)) o isz c =
+      crc32c c (clearCsum hi (i.bytes o isz)) :=
+  crcRange_cleared i o isz hi c
+
+/-! non-vacuity -/
+example : goFast 0xa1ff 5 = true ∧ specFast 0xa1ff 2 2 = true ∧ specFast 0xa1ff 2 0 = false := by decide
+example : (0x98 ≤ 128 + 32 ∧ 0x98 ≤ 256) := by decide
+
+/-! ### directory blocks: mirror of parseDirEntriesLinear (as it is now) = SPEC walk -/
+
+/-- mirror = spec for one directory block: on EVERY block whose rec_len chain tiles it (records of at least 12
+    bytes, multiples of 4, inside the block, covering their names — unused records with inode 0, the checksum
+    tail and names up to 255 bytes included) the mirror of parseDirEntriesLinear's loop succeeds and its entries
+    in use are exactly what the rec_len walk of the SPEC reader returns, in order -/
+theorem mirror_dir_block_eq_spec (bs : Nat) (blk : Bytes) (h : Tiles blk) (hl : blk.length = bs) :
+    ∃ es, parseEntriesNow (bs / 8 + 2) blk = .ok es ∧
+      dirWalk bs (bs / 8 + 2) blk 0 [] = .ok (liveEntries es) := by
+  obtain ⟨es, h1, h2⟩ := tiles_walk bs blk.length blk (Nat.le_refl _) h (bs / 8 + 2) (bs / 8 + 2) 0 []
+    (by omega) (by omega) (by omega)
+  exact ⟨es, h1, by simpa using h2⟩
+
+/-! ### extended attributes: mirror of parseXattrEntries = SPEC walk -/
+
+/-- in-inode table (readIbodyXattrs hands parseXattrEntries the bytes behind the magic as entries AND values;
+    the SPEC reader walks the whole record with the position of the first entry as value base): for every
+    well-formed table with distinct names, ended by four zero bytes or the end of the record, both return the
+    same list of (name, value) — given that the two prefix tables name the indices alike (`hpre`; the
+    correspondence compares the names on every attribute of the images) -/
+theorem mirror_xattr_ibody_eq_spec (cfg : Cfg) (hk : cfg.xattrKeepEmpty = true) (tbl : List (Nat × String))
+    (xs : List XEnt) (pre tail : Bytes) (hal : pre.length % 4 = 0)
+    (hwf : ∀ x ∈ xs, XWF (encXTable xs ++ tail) x) (ht : TermZero tail)
+    (hd : (xs.map fun x => xattrPrefix tbl x.idx ++ x.name).Nodup)
+    (hpre : ∀ x ∈ xs, xattrPrefix tbl x.idx = xattrPrefixSpec x.idx) :
+    ∃ L, parseXattrs cfg tbl (encXTable xs ++ tail) (encXTable xs ++ tail) (xs.length + 1) 0 [] = .ok L ∧
+      xattrWalk (pre ++ (encXTable xs ++ tail)) pre.length (pre ++ (encXTable xs ++ tail)).length
+        (xs.length + 1) pre.length [] = .ok L := by
+  refine ⟨_, xattr_ibody_roundtrip cfg tbl xs tail hwf (termZero_termOK tail ht), ?_⟩
+  rw [xattr_distinct_all_listed cfg hk tbl _ xs hd]
+  rw [xattrWalk_enc (pre ++ (encXTable xs ++ tail)) pre.length xs pre tail [] (xs.length + 1)
+    (by simp [List.append_assoc]) hal ?_ (by omega) ht]
+  · simp only [List.reverse_nil, List.nil_append]
+    congr 1
+    apply List.map_congr_left
+    intro x hx
+    simp only [specEntry, hpre x hx]
+    congr 1
+    have := slice_shift pre (encXTable xs ++ tail) x.offs (x.offs + x.size)
+    rw [Nat.add_assoc, this]
+  · intro x hx
+    obtain ⟨h1, h2, h3, h4, h5, h6⟩ := hwf x hx
+    refine ⟨h1, h2, h3, h4, h5, ?_⟩
+    intro hp
+    have := h6 hp
+    simp only [List.length_append] at this ⊢
+    omega
+
+/-- xattr block (readBlockXattrs: entries behind the 32-byte header, value offsets from the start of the block;
+    the SPEC reader walks the block from byte 32 with value base 0) -/
+theorem mirror_xattr_block_eq_spec (cfg : Cfg) (hk : cfg.xattrKeepEmpty = true) (tbl : List (Nat × String))
+    (xs : List XEnt) (hdr tail : Bytes) (hal : hdr.length % 4 = 0)
+    (hwf : ∀ x ∈ xs, XWF (hdr ++ (encXTable xs ++ tail)) x) (ht : TermZero tail)
+    (hd : (xs.map fun x => xattrPrefix tbl x.idx ++ x.name).Nodup)
+    (hpre : ∀ x ∈ xs, xattrPrefix tbl x.idx = xattrPrefixSpec x.idx) :
+    ∃ L, parseXattrs cfg tbl (encXTable xs ++ tail) (hdr ++ (encXTable xs ++ tail)) (xs.length + 1) 0 [] = .ok L ∧
+      xattrWalk (hdr ++ (encXTable xs ++ tail)) 0 (hdr ++ (encXTable xs ++ tail)).length
+        (xs.length + 1) hdr.length [] = .ok L := by
+  refine ⟨_, xattr_block_roundtrip cfg tbl xs hdr tail hwf (termZero_termOK tail ht), ?_⟩
+  rw [xattr_distinct_all_listed cfg hk tbl _ xs hd]
+  rw [xattrWalk_enc (hdr ++ (encXTable xs ++ tail)) 0 xs hdr tail [] (xs.length + 1)
+    (by simp [List.append_assoc]) hal ?_ (by omega) ht]
+  · simp only [List.reverse_nil, List.nil_append]
+    congr 1
+    apply List.map_congr_left
+    intro x hx
+    simp only [specEntry, hpre x hx, Nat.zero_add]
+  · intro x hx
+    obtain ⟨h1, h2, h3, h4, h5, h6⟩ := hwf x hx
+    refine ⟨h1, h2, h3, h4, h5, ?_⟩
+    intro hp
+    have := h6 hp
+    omega
+
+/-! non-vacuity: a block of two records (a file "a", then the 12-byte checksum tail), an attribute table -/
+def exDirBlk : Bytes := [12, 0, 0, 0, 12, 0, 1, 1, 97, 0, 0, 0] ++ [0, 0, 0, 0, 12, 0, 0, 0xde, 1, 2, 3, 4]
+example : Tiles exDirBlk :=
+  Tiles.cons _ (by decide) (by decide) (by decide) (by decide)
+    (Tiles.cons _ (by decide) (by decide) (by decide) (by decide)
+      (by
+        have h : List.drop (le16 (List.drop (le16 exDirBlk 4) exDirBlk) 4) (List.drop (le16 exDirBlk 4) exDirBlk) = [] := by
+          decide
+        rw [h]; exact Tiles.nil))
+example : parseEntriesNow 5 exDirBlk = .ok [⟨12, 1, [97]⟩, ⟨0, 0xde, []⟩] ∧
+    (dirWalk 24 5 exDirBlk 0 []).toOption = some [⟨12, 1, [97]⟩] := by decide
+example : TermZero (zeros 44) := Or.inr ⟨zeros 40, rfl⟩
+
+/-! ### the feature gate as a decision table (regenerated from features.go / ext4.Read) -/
+
+/-- a bit the table lists as refused makes ext4.Read fail whenever it is set, whatever else the word holds -/
+theorem gate_refuses_listed (t : GateTbl) (word b : Nat) (hb : b ∈ t.refused) (hs : hasBit word b = true) :
+    gateAcceptsT t word = false :=
+  gate_table_refuses t word b hb hs
+
+/-- … and a bit it lists as required makes it fail whenever it is clear -/
+theorem gate_requires_listed (t : GateTbl) (word b : Nat) (hb : b ∈ t.required) (hs : hasBit word b = false) :
+    gateAcceptsT t word = false :=
+  gate_table_requires t word b hb hs
+
+/-- the unsupported-feature clause, for every gate table: IF the table refuses every single-bit position of the
+    INCOMPAT word outside the supported set (`gateUncovered t = []`), THEN an image whose INCOMPAT word has any
+    bit outside the supported set is refused -/
+theorem gate_refuses_outside_supported (t : GateTbl) (hcover : gateUncovered t = []) (word k : Nat) (hk : k < 32)
+    (hbit : hasBit word (2 ^ k) = true) (hns : supportedIncompat.contains (2 ^ k) = false) :
+    gateAcceptsT t word = false :=
+  Reader.gate_refuses_outside_supported t hcover word k hk hbit hns
+
+/-- the table ext4.Read has NOW: INCOMPAT refuses inline_data and demands extents, nothing else; no RO_COMPAT and
+    no COMPAT bit is looked at.  It is the gate the mirror `gateAccepts` (unsupported_rejected /
+    supported_accepted) speaks about -/
+theorem facts_agree_gate_table :
+    GateTbl.incompatCurrent = ⟨[0x8000], [0x40]⟩ ∧ GateTbl.roCompatCurrent = ⟨[], []⟩ ∧
+    GateTbl.compatCurrent = ⟨[], []⟩ ∧
+    Ext4Ref.featIncompatBits = [1, 2, 4, 8, 16, 64, 128, 256, 512, 1024, 4096, 8192, 16384, 32768, 65536] ∧
+    Ext4Ref.featIncompatNames.length = Ext4Ref.featIncompatBits.length ∧
+    Ext4Ref.featRoCompatNames.length = Ext4Ref.featRoCompatBits.length ∧
+    Ext4Ref.featCompatNames.length = Ext4Ref.featCompatBits.length := by
+  decide
+
+theorem gate_table_is_mirror (incompat : Nat) :
+    gateAcceptsT GateTbl.incompatCurrent incompat = gateAccepts Cfg.current incompat := by
+  have h1 : Cfg.current.gateRequiresExtents = true := by decide
+  have h2 : Cfg.current.gateRefusesInlineData = true := by decide
+  rw [facts_agree_gate_table.1]
+  simp [gateAcceptsT, gateAccepts, h1, h2, incompatExtents, incompatInlineData, Bool.and_comm]
+
+/-- the gap, exactly: the single-bit positions of the INCOMPAT word that ext4.Read lets pass although the
+    reader does not implement them — compression (bit 0), journal to replay (2), journal device (3), meta_bg (4),
+    ea_inode (10), dirdata (12), encrypt (16), casefold (17) and every bit the format has not assigned — so
+    `gate_refuses_outside_supported` does NOT apply to the gate as it is.  The reference images carrying
+    meta_bg, ea_inode, encrypt and casefold are read in every run: meta_bg with several meta groups fails at the
+    descriptor checksums, an EA-inode value is refused at its entry, encrypt / casefold set by mke2fs alone
+    change nothing on disk -/
+theorem gate_current_uncovered :
+    gateUncovered GateTbl.incompatCurrent =
+      [0, 2, 3, 4, 5, 10, 11, 12, 16, 17, 18, 19, 20, 21, 22, 23, 24, 25, 26, 27, 28, 29, 30, 31] := by
+  decide
+
+/-- e.g. meta_bg | extents | 64bit | filetype passes the gate -/
+theorem cex_gate_accepts_meta_bg : gateAcceptsT GateTbl.incompatCurrent (0x10 + 0x40 + 0x80 + 0x2) = true := by
+  decide
+
+example : gateUncovered ⟨[1, 4, 8, 16, 32, 1024, 2048, 4096, 32768, 65536, 131072] ++
+    (List.range 14).map (fun i => 2 ^ (i + 18)), [64]⟩ = [] := by decide
+
+/-! ### hash-indexed directories: the Go reader's hash-tree walk = the SPEC reader's linear walk of the leaves -/
+
+/-- the key reader equivalence for large directories.  Let the directory data hold a hash tree of any depth whose
+    walk (the mirror of parseDirEntriesHashed: the dx entries of every node in order, leaf blocks parsed by the
+    linear parser, checksum tails stripped with metadata_csum) succeeds with `es`.  If the tree references every
+    leaf block of `leaves` exactly once and every leaf is well formed (its records tile it; with metadata_csum they
+    tile the part in front of the 12-byte tail), then the SPEC reader's rec_len walk succeeds on every leaf and
+    the entries in use the hash-tree walk returned are, up to order, exactly the entries the linear walk of the
+    leaf blocks returns — nothing lost, nothing duplicated, nothing invented -/
+theorem htree_equals_spec_linear (csum : Bool) (bs : Nat) (data : Bytes) (d : Nat) (blks leaves : List Nat)
+    (es : List DirEnt) (h : parseHashed Cfg.fixed csum bs data d blks = .ok es)
+    (hperm : ∀ L, leafBlocks bs data d blks = .ok L → L.Perm leaves)
+    (htile : ∀ b ∈ leaves, b * bs + bs ≤ data.length ∧ LeafOK csum bs (dirBlock bs data b)) :
+    (∀ b ∈ leaves, dirWalk bs (bs / 8 + 2) (dirBlock bs data b) 0 [] =
+        .ok (liveEntries (leafEntriesNow csum bs data b))) ∧
+    (liveEntries es).Perm ((leaves.map fun b => liveEntries (leafEntriesNow csum bs data b)).flatten) :=
+  hashed_eq_spec_leaves csum bs data d blks leaves es h hperm htile
+
+/-- one leaf: the Go reader's linear parser (tail stripped) and the SPEC walk of the whole block -/
+theorem leaf_block_mirror_eq_spec (csum : Bool) (bs : Nat) (data : Bytes) (b : Nat)
+    (hin : b * bs + bs ≤ data.length) (ht : LeafOK csum bs (dirBlock bs data b)) :
+    leafAt Cfg.fixed csum bs data b = .ok (leafEntriesNow csum bs data b) ∧
+    dirWalk bs (bs / 8 + 2) (dirBlock bs data b) 0 [] = .ok (liveEntries (leafEntriesNow csum bs data b)) :=
+  leaf_ok csum bs data b hin ht
+
+/-- on tiling data the earlier mirror of the entry loop (dir_linear_roundtrip is about it) and the mirror of the
+    loop as the source has it now agree -/
+theorem dir_mirrors_agree (r : Bytes) (h : Tiles r) (f1 f2 : Nat) (h1 : r.length < 12 * f1) (h2 : r.length < 12 * f2) :
+    parseEntries Cfg.fixed f1 r = parseEntriesNow f2 r :=
+  parseEntries_eq_now r.length r (Nat.le_refl _) h f1 f2 h1 h2
+
+/-! non-vacuity: the two-record block above is a well-formed leaf of a 24-byte "block size" with a checksum tail -/
+example : LeafOK true 24 exDirBlk := by
+  refine ⟨by decide, ?_, ?_⟩
+  · exact Tiles.cons _ (by decide) (by decide) (by decide) (by decide) (by
+      have h : List.drop (le16 (List.take (24 - 12) exDirBlk) 4) (List.take (24 - 12) exDirBlk) = [] := by decide
+      rw [h]; exact Tiles.nil)
+  · exact ⟨by decide, by decide, by decide, by decide⟩
+
+/-! ### checksum verification decisions: Go reader = SPEC reader, as functions of the bytes -/
+
+/-- superblock: for every image, the SPEC reader's check (crc32c with seed 0xffffffff over the 0x3fc bytes in
+    front of s_checksum, read off the image) is the mirror of superblockFromBytes' check on the superblock bytes -/
+theorem csum_superblock_eq (i : Img) :
+    ((i.crcRange (fun _ => false) 1024 0x3fc 0xFFFFFFFF).toNat == i.u32 (1024 + 0x3fc)) =
+      goSbCsumOk (i.bytes 1024 1024) :=
+  sb_csum_eq i
+
+/-- the seed of every other checksum: the Go reader takes s_checksum_seed when the field is not zero, the format
+    when the csum_seed feature is set — the same seed exactly when the field is non-zero with the feature and
+    zero without it (what mke2fs and tune2fs maintain) -/
+theorem csum_seed_eq (feat : Bool) (sb : Bytes) (h : feat = true ↔ le32 sb 0x270 ≠ 0) :
+    goSeed sb = specSeed feat sb :=
+  seed_eq feat sb h
+
+/-- group descriptors: the SPEC reader's check over the image is the format's check over the descriptor bytes
+    (crc32c over seed, le32 group number, the descriptor with its checksum field cleared; low 16 bits) … -/
+theorem csum_gd_spec (img : Img) (g : Geo) (seed : UInt32) (grp : Nat) (h32 : 0x20 ≤ g.gdSize) :
+    (gdRead img g seed grp).2 = specGdCsumOk seed grp (img.bytes (g.gdOff grp) g.gdSize) :=
+  gd_csum_spec img g seed grp h32
+
+/-- … and the mirror of groupDescriptorFromBytes' check decides the same for every descriptor of 32 or 64 bytes
+    and every group number below 65536 (the Go code feeds the group number into the crc as 16 bits: beyond, on
+    volumes of more than 65535 groups, it refuses descriptors the reference tools wrote — an error, not wrong data) -/
+theorem csum_gd_mirror_eq_spec (seed : UInt32) (grp gdSize : Nat) (raw : Bytes) (hl : raw.length = gdSize)
+    (hs : gdSize = 32 ∨ gdSize = 64) (hg : grp < 65536) :
+    goGdCsumOk seed grp gdSize raw = specGdCsumOk seed grp raw :=
+  gd_csum_mirror seed grp gdSize raw hl hs hg
+
+/-- directory leaves: on every block that ends in the checksum tail (inode 0, rec_len 12, name_len 0, type 0xde)
+    the SPEC reader verifies exactly what parseDirEntriesLinear verifies: crc32c over seed, inode number,
+    generation and the block without the tail, against the last four bytes -/
+theorem csum_dir_block_eq (f : Fs) (d : Inode) (blk : Bytes) (h12 : 12 ≤ f.bs)
+    (ht : le32 blk (f.bs - 12) = 0 ∧ le16 blk (f.bs - 12 + 4) = 12 ∧ u8 blk (f.bs - 12 + 6) = 0 ∧
+      u8 blk (f.bs - 12 + 7) = 0xde) :
+    dirTailOk f d blk = some (goDirCsumOk f.seed d.num d.gen f.bs blk) :=
+  dir_csum_eq f d blk h12 ht
 
 end Diskfs.Ext4.Reader.C20
